@@ -6,11 +6,12 @@ props = [json.loads(l) for l in open(os.path.join(V, "properties.jsonl")) if l.s
 na_file = os.path.join(V, "checks", "not_applicable.json")
 na_reasons = json.load(open(na_file)) if os.path.exists(na_file) else {}
 checks, na, engines = [], [], {}
+registered = set(json.load(open(os.path.join(V, "checks", "registered.json"))))
 for p in props:
     pid = p["id"]
     f = os.path.join(V, "checks", pid + ".json")
     cfg = json.load(open(f)) if os.path.exists(f) else None
-    if not cfg or "manifest" not in cfg:
+    if not cfg or "manifest" not in cfg or pid not in registered:
         na.append({"property_id": pid, "reason": na_reasons.get(pid, "check not built yet (work in progress); not claimed")})
         continue
     m = cfg["manifest"]
